@@ -3,6 +3,7 @@ CONSTANTS
   Files <- MCFiles
   Barrier = FALSE
   SortList = TRUE
+  OpenInside = TRUE
 INVARIANT MatchesRule
 INVARIANT ExitZero
 INVARIANT JunkInvariant
